@@ -58,6 +58,12 @@ CLAIMED = {
     design_ref="DESIGN.md section 5 C10",
     note="Trusted: TLC, recording driver. Crash-style stop = files closed without flushing, between statements. One open known finding (B-tree re-attach after a crash restart followed by a clean restart).",
     technique="TLA+ contract spec as oracle; TLC trace validation of recorded multi-table restart histories"),
+ "C11": dict(
+    category="model_checking",
+    text="SqlModel.JoinAnswerBag (naive evaluation over all combinations of base rows) is the oracle. Seeded scenarios with two or three tables (join keys int/float/varchar from a small domain: duplicates, misses, empty tables, size asymmetry; fully indexed SQL tables and partially indexed catalog-API tables), equality joins in JOIN..ON and comma form, conjunctive filters on any table, select lists in any order, each batch under three statistics states so that hash joins (both orientations), index joins and nested-loop joins are all chosen; TLC compares every recorded answer as a bag with the reference.",
+    design_ref="DESIGN.md section 5 C11",
+    note="Trusted: TLC, recording driver. Plans are steered, not forced; NULL keys not exercised.",
+    technique="TLA+ contract spec as oracle; TLC trace validation of recorded join queries under varying statistics"),
 }
 
 NOT_APPLICABLE = {
